@@ -18,7 +18,7 @@ import dlib  # noqa: E402
 
 logging.disable(logging.CRITICAL)
 
-from traits.api import (Any, BaseInt, Bool, Bytes, Button, CFloat, CInt, CStr, Callable, Complex, Constant,  # noqa
+from traits.api import (Regex, Any, BaseInt, Bool, Bytes, Button, CFloat, CInt, CStr, Callable, Complex, Constant,  # noqa
                         Date, DelegatesTo, Dict, Directory, Disallow, Either, Enum, Event, Expression, File, Float,
                         HasTraits, Instance, Int, List, Map, PrefixList, PrefixMap, Property, PrototypedFrom,
                         Python, Range, ReadOnly, Set, Str, String, This, Tuple, Type, Union, UUID, WeakRef,
@@ -133,6 +133,8 @@ SPECS = {
     "PropertyList": lambda: Property(fget=fget1, fset=fset2, trait=List(Int)),
     "PropertyDependsOn": lambda: Property(fget=fget1, depends_on="v"),
     "PropertyObserve": lambda: Property(fget=fget1, observe="v"),
+    "Regex": lambda: Regex("ab", regex="^a"), "StringRegex": lambda: String("ab", regex="^a.*$"),
+    "ListRegex": lambda: List(Regex("ab", regex="^a")), "RegexMinMax": lambda: String("ab", minlen=1, maxlen=3, regex="b$"),
     "MethodDefault": None, "Fresh0": None, "Fresh5": None, "Fresh8": None,
 }
 
